@@ -550,6 +550,15 @@ Proof.
   intros f states d q Hs Hp Hq. destruct (run_update_main f states d Hs Hp) as [_ [_ [_ [_ A]]]]. auto.
 Qed.
 
+Theorem hyps_decided : forall f d,
+  wf_fs_b f = true -> anchor_b rn f = true -> paths_ok_b d = true -> start_ok f /\ paths_ok d.
+Proof.
+  intros f d A B C. split; [split|].
+  - exact (wf_fs_b_sound f A).
+  - exact (anchor_b_sound f B).
+  - exact (paths_ok_b_sound d C).
+Qed.
+
 Theorem wf_thm : forall f states d,
   start_ok f -> paths_ok d -> wf_fs (o_fs (run_update f states d)).
 Proof. intros f states d Hs Hp. now destruct (run_update_main f states d Hs Hp) as [A _]. Qed.
